@@ -13,6 +13,7 @@ import (
 	"fmt"
 	"go/token"
 	"go/types"
+	"sort"
 	"strings"
 
 	"golang.org/x/tools/go/ssa"
@@ -659,4 +660,219 @@ func ruleSlotCountUsesPositionTable(r *Run) {
 		}
 	}
 	r.check(n >= 1, "getNumVoxels:per-voxel-counts", fmt.Sprintf("%d", n), "none found: rule needs review", w.fpos(f))
+}
+
+func init() {
+	register(ruleDef{ID: "R10.11", Prop: "C10", Tier: "quick", Floor: 1,
+		Title: "a merge that cleared a slot redirects the sub-block indices: in Block.MergeLabels every success return that can follow the clearing of a label-table slot lies behind the scan that rewrites the sub-block index list (a cleared slot whose positions are not redirected turns its voxels into label 0); the early return for 'nothing merged' is recognised by its test of the counter that the clearing increments",
+		Fn:    ruleMergeRedirectsIndices})
+	register(ruleDef{ID: "R10.12", Prop: "C10", Tier: "quick", Floor: 4,
+		Title: "reported sizes are counted voxel by voxel: in the split functions of the labels package that return kept/split sizes, every addition or subtraction that feeds a returned size changes it by one and sits in a block entered by a test computed from a voxel of the expanded array (a size credited by run length counts voxels of other labels under the split volume)",
+		Fn:    ruleSizesCountedPerVoxel})
+}
+
+func ruleMergeRedirectsIndices(r *Run) {
+	w := r.W
+	f := w.method("datatype/common/labels", "Block", "MergeLabels")
+	if f == nil || len(f.Blocks) == 0 {
+		r.undecided("labels.Block.MergeLabels", "anchor not found")
+		return
+	}
+	loops := naturalLoops(f)
+	// the scan that rewrites SBIndices
+	var rewriteHeader *ssa.BasicBlock
+	for _, b := range f.Blocks {
+		for _, in := range b.Instrs {
+			st, ok := in.(*ssa.Store)
+			if !ok {
+				continue
+			}
+			if ia, ok := st.Addr.(*ssa.IndexAddr); ok && tableOf(ia.X) == "SBIndices" {
+				if h, _, _ := innermostLoop(f, b); h != nil {
+					rewriteHeader = h
+				}
+			}
+		}
+	}
+	if rewriteHeader == nil {
+		r.violation("MergeLabels:index-rewrite", "no loop that rewrites the sub-block index list was found: the positions of merged slots are never redirected to the target", w.fpos(f))
+		return
+	}
+	n := 0
+	for _, b := range f.Blocks {
+		for _, in := range b.Instrs {
+			st, ok := in.(*ssa.Store)
+			if !ok {
+				continue
+			}
+			ia, ok := st.Addr.(*ssa.IndexAddr)
+			if !ok || tableOf(ia.X) != "Labels" {
+				continue
+			}
+			if k, ok := st.Val.(*ssa.Const); !ok || k.Value == nil || k.Value.String() != "0" {
+				continue
+			}
+			n++
+			// counters incremented in the clearing block: a later test "counter == 0" is false
+			counters := map[ssa.Value]bool{}
+			for _, x := range b.Instrs {
+				if bo, ok := x.(*ssa.BinOp); ok && bo.Op == token.ADD {
+					if k, ok := constInt(bo.Y); ok && k == 1 && strings.HasPrefix(bo.Type().String(), "uint") {
+						counters[bo] = true
+						counters[bo.X] = true
+					}
+				}
+			}
+			isCounter := func(v ssa.Value) bool {
+				if counters[v] {
+					return true
+				}
+				if phi, ok := v.(*ssa.Phi); ok {
+					for _, e := range phi.Edges {
+						if counters[e] {
+							return true
+						}
+					}
+				}
+				return false
+			}
+			filter := func(bb *ssa.BasicBlock, i int) bool {
+				ifi, ok := bb.Instrs[len(bb.Instrs)-1].(*ssa.If)
+				if !ok {
+					return true
+				}
+				bo, ok := ifi.Cond.(*ssa.BinOp)
+				if !ok || !isCounter(stripConv(bo.X)) {
+					return true
+				}
+				if k, ok := constInt(bo.Y); !ok || k != 0 {
+					return true
+				}
+				switch bo.Op {
+				case token.EQL:
+					return i == 1
+				case token.NEQ, token.GTR:
+					return i == 0
+				}
+				return true
+			}
+			first := rewriteHeader.Instrs[0]
+			pth := findPath(f, st, func(x ssa.Instruction) bool { return x == first }, successExit, filter)
+			_ = loops
+			r.check(pth == nil, fmt.Sprintf("MergeLabels:cleared-slot#%d:indices-redirected-before-success", n), "every success return behind the clearing lies behind the index rewrite",
+				"a success return can be reached from the clearing of a label-table slot without running the scan that redirects the sub-block indices: the voxels stored under the cleared slot become label 0 instead of the target", w.pos(st.Pos()), w.renderPath(pth)...)
+		}
+	}
+	r.check(n >= 1, "MergeLabels:cleared-slots", fmt.Sprintf("%d", n), "no clearing store found: rule needs review", w.fpos(f))
+}
+
+func ruleSizesCountedPerVoxel(r *Run) {
+	w := r.W
+	n := 0
+	for _, f := range w.RepoFuncs {
+		if len(f.Blocks) == 0 || relPkg(pkgPathOf(f)) != "datatype/common/labels" || isTestFunc(w, f) {
+			continue
+		}
+		res := f.Signature.Results()
+		var sizeIdx []int
+		for i := 0; i < res.Len(); i++ {
+			if res.At(i).Type().String() == "uint64" && strings.HasSuffix(res.At(i).Name(), "Size") {
+				sizeIdx = append(sizeIdx, i)
+			}
+		}
+		if len(sizeIdx) < 2 || !strings.Contains(strings.ToLower(f.Name()), "split") {
+			continue
+		}
+		// an unexported variant that nothing calls (splitFast, "not working at this time") is not part of the build's behaviour
+		if !f.Object().Exported() {
+			called := false
+			for _, cs := range callSitesOf(w)[f] {
+				if !isTestFunc(w, cs.Parent()) {
+					called = true
+				}
+			}
+			if !called {
+				r.check(true, fname(f)+":not-called", "excepted: no call site outside tests (dead code on this tree)", "", w.fpos(f))
+				continue
+			}
+		}
+		// the arithmetic that feeds the returned sizes
+		feeding := map[*ssa.BinOp]bool{}
+		seen := map[ssa.Value]bool{}
+		var walk func(v ssa.Value)
+		walk = func(v ssa.Value) {
+			if v == nil || seen[v] {
+				return
+			}
+			seen[v] = true
+			switch x := v.(type) {
+			case *ssa.Phi:
+				for _, e := range x.Edges {
+					walk(e)
+				}
+			case *ssa.BinOp:
+				if x.Op == token.ADD || x.Op == token.SUB {
+					feeding[x] = true
+					walk(x.X)
+				}
+			case *ssa.UnOp:
+				if al, ok := x.X.(*ssa.Alloc); ok && x.Op == token.MUL {
+					for _, ref := range *al.Referrers() {
+						if st, ok := ref.(*ssa.Store); ok && st.Addr == ssa.Value(al) {
+							walk(st.Val)
+						}
+					}
+				}
+			}
+		}
+		for _, b := range f.Blocks {
+			if ret, ok := b.Instrs[len(b.Instrs)-1].(*ssa.Return); ok {
+				for _, i := range sizeIdx {
+					if i < len(ret.Results) {
+						walk(ret.Results[i])
+					}
+				}
+			}
+		}
+		if len(feeding) == 0 {
+			continue
+		}
+		var bos []*ssa.BinOp
+		for bo := range feeding {
+			bos = append(bos, bo)
+		}
+		sort.Slice(bos, func(i, j int) bool { return bos[i].Pos() < bos[j].Pos() })
+		for k, bo := range bos {
+			n++
+			one := false
+			if c, ok := constInt(bo.Y); ok && c == 1 {
+				one = true
+			}
+			// entered by a test of a voxel
+			tested := false
+			for _, gb := range f.Blocks {
+				if len(gb.Instrs) == 0 {
+					continue
+				}
+				ifi, ok := gb.Instrs[len(gb.Instrs)-1].(*ssa.If)
+				if !ok || !(guardedByEdge(ifi, 0, bo) || guardedByEdge(ifi, 1, bo)) {
+					continue
+				}
+				for d := range dataDeps(ifi.Cond) {
+					u, ok := d.(*ssa.UnOp)
+					if !ok || u.Op != token.MUL {
+						continue
+					}
+					if ia, ok := u.X.(*ssa.IndexAddr); ok {
+						if sl, ok := ia.X.Type().Underlying().(*types.Slice); ok && sl.Elem().String() == "uint64" {
+							tested = true
+						}
+					}
+				}
+			}
+			r.check(one && tested, fmt.Sprintf("%s:size-arithmetic#%d:one-per-tested-voxel", fname(f), k+1), "the size changes by one behind a test of a voxel",
+				"a returned size is changed by something other than one, or in a block that is not entered by a test of a voxel of the expanded array: voxels of other labels under the split volume are counted as split (and the kept size can underflow), so the reported sizes differ from the voxels moved", w.pos(bo.Pos()))
+		}
+	}
+	r.check(n >= 4, "labels:size-arithmetic", fmt.Sprintf("%d", n), "too few found: rule needs review", "-")
 }
